@@ -10,17 +10,17 @@ package trace
 //@ func (*Tracer).newRecord
 //@   props C09 C20
 //@   requires req != nil && pw != nil
-//@   modifies everything
+//@   modifies external
 //@   ensures result != nil
 
 // helpers of newRecord: they read the request / response headers and allocate the record, no shared state
 //@ func captureHeaders
 //@   props C09
-//@   modifies everything
+//@   modifies external
 //@ func bodyBytes
 //@   props C09
-//@   modifies everything
+//@   modifies external
 //@ func newTLS
 //@   props C09
 //@   requires req != nil
-//@   modifies everything
+//@   modifies external
